@@ -599,10 +599,23 @@ class SymInt(_int):
         field = lowdiv % (b + 1)
         return SymInt(field * (1 << a))
     def __or__(s, o):
-        # x | y == x + y when fields are disjoint: caller's responsibility is checked by an assertion
-        oe = o.e if isinstance(o, SymInt) else z3.IntVal(_int(o))
-        EX.or_obligations.append((s.e, oe)) if hasattr(EX, "or_obligations") else None
-        raise Unsupported("or of symbolic ints (use bit-vector harness)")
+        """x | y == x + y when the operands occupy disjoint bit fields; that is established by the
+        solver on the current path: for some k, one operand is a multiple of 2^k and the other lies in [0, 2^k)"""
+        if isinstance(o, SymInt):
+            oe = o.e
+        elif isinstance(o, _int):
+            oe = z3.IntVal(_int(o))
+        else:
+            return NotImplemented
+        EX.has_int = True
+        for k in (8, 16, 24, 32, 4, 1, 2, 12, 20, 28, 40, 48, 56, 64):
+            m = 1 << k
+            for hi, lo in ((s.e, oe), (oe, s.e)):
+                cond = z3.And(hi % m == 0, lo >= 0, lo < m)
+                r, _m = EX.check(z3.Not(cond))
+                if r == "unsat":
+                    return SymInt(hi + lo)
+        raise Unsupported("or of symbolic ints with overlapping / unknown bit fields")
     __ror__ = __or__
     def __invert__(s): return SymInt(-s.e - 1)
 
